@@ -19,6 +19,7 @@ spec fn wfStack(vm *Thread) bool = vm != nil && len(vm.stack) >= 1 && len(vm.sta
 spec fn slot(vm *Thread, k int) value.Value = elem(vm.stack, k)
 
 func (*Thread).push
+  guard addr < 0 || (sbase(vm) <= addr && addr < sbase(vm) + 24 * len(vm.stack))
   props C10 C01
   requires wfStack(vm) && soff(vm) < len(vm.stack) - 1
   ensures wfStack(vm) && soff(vm) == old(soff(vm)) + 1 && vm.fp == old(vm.fp) && vm.stack == old(vm.stack)
@@ -26,6 +27,7 @@ func (*Thread).push
   ensures rest: forall k int :: 0 <= k && k < len(vm.stack) && k != old(soff(vm)) ==> slot(vm, k) == old(slot(vm, k))
 
 func (*Thread).pop
+  guard addr < 0 || (sbase(vm) <= addr && addr < sbase(vm) + 24 * len(vm.stack))
   props C10 C01
   requires wfStack(vm) && soff(vm) >= 1
   ensures wfStack(vm) || soff(vm) < foff(vm)
@@ -33,6 +35,7 @@ func (*Thread).pop
   ensures rest: forall k int :: 0 <= k && k < soff(vm) ==> slot(vm, k) == old(slot(vm, k))
 
 func (*Thread).popGet
+  guard addr < 0 || (sbase(vm) <= addr && addr < sbase(vm) + 24 * len(vm.stack))
   props C10 C01 C08
   requires wfStack(vm) && soff(vm) >= 1
   ensures ret == old(slot(vm, soff(vm) - 1))
@@ -41,18 +44,21 @@ func (*Thread).popGet
   ensures rest: forall k int :: 0 <= k && k < soff(vm) ==> slot(vm, k) == old(slot(vm, k))
 
 func (*Thread).peek
+  guard addr < 0 || (sbase(vm) <= addr && addr < sbase(vm) + 24 * len(vm.stack))
   props C10 C01 C08
   requires wfStack(vm) && soff(vm) >= 1
   assigns nothing
   ensures ret == slot(vm, soff(vm) - 1)
 
 func (*Thread).peekAt
+  guard addr < 0 || (sbase(vm) <= addr && addr < sbase(vm) + 24 * len(vm.stack))
   props C10 C01 C08
   requires wfStack(vm) && 0 <= n && n < soff(vm)
   assigns nothing
   ensures ret == slot(vm, soff(vm) - 1 - n)
 
 func (*Thread).replace
+  guard addr < 0 || (sbase(vm) <= addr && addr < sbase(vm) + 24 * len(vm.stack))
   props C10 C01 C08
   requires wfStack(vm) && soff(vm) >= 1
   ensures vm.sp == old(vm.sp) && vm.fp == old(vm.fp) && vm.stack == old(vm.stack)
@@ -60,6 +66,7 @@ func (*Thread).replace
   ensures rest: forall k int :: 0 <= k && k < len(vm.stack) && k != soff(vm) - 1 ==> slot(vm, k) == old(slot(vm, k))
 
 func (*Thread).swap
+  guard addr < 0 || (sbase(vm) <= addr && addr < sbase(vm) + 24 * len(vm.stack))
   props C10 C01
   requires wfStack(vm) && soff(vm) >= 2
   ensures vm.sp == old(vm.sp) && vm.fp == old(vm.fp) && vm.stack == old(vm.stack)
@@ -67,6 +74,7 @@ func (*Thread).swap
   ensures rest: forall k int :: 0 <= k && k < soff(vm) - 2 ==> slot(vm, k) == old(slot(vm, k))
 
 func (*Thread).popSkipOne
+  guard addr < 0 || (sbase(vm) <= addr && addr < sbase(vm) + 24 * len(vm.stack))
   props C10 C01
   requires wfStack(vm) && soff(vm) >= 2
   ensures soff(vm) == old(soff(vm)) - 1 && vm.fp == old(vm.fp) && vm.stack == old(vm.stack)
@@ -75,6 +83,7 @@ func (*Thread).popSkipOne
 
 // pops n values keeping the one on top; every write stays inside the stack
 func (*Thread).popNSkipOne
+  guard addr < 0 || (sbase(vm) <= addr && addr < sbase(vm) + 24 * len(vm.stack))
   props C10 C01 C14
   requires wfStack(vm) && n >= 0 && n + 1 <= soff(vm)
   ensures soff(vm) == old(soff(vm)) - n && vm.fp == old(vm.fp) && vm.stack == old(vm.stack)
@@ -227,4 +236,37 @@ func (*Thread).opCloseUpvalues
   loop 1
     invariant vm.sp == old(vm.sp) && vm.fp == old(vm.fp) && vm.stack == old(vm.stack)
     invariant forall u *Upvalue :: u != nil ==> u.slot != nil
+
+// ==== suspending and resuming generators / async bodies (C15, C10) =======================
+// The interpreter loop itself is outside the verified subset; what is assumed of it is that
+// it returns with a well-formed stack whose current frame starts at vm.fp.
+func (*Thread).run
+  trusted
+  assigns everything
+  ensures wfStack(vm) && vm.callFrames != nil && len(vm.callFrames) >= 1
+
+func (*Thread).createCurrentCallFrame
+  trusted
+  assigns vm.cfp, all(CallFrame).upvalues, all(CallFrame).bytecode, all(CallFrame).ip, all(CallFrame).fp, all(CallFrame).localCount, all(CallFrame).tailCallCounter, all(CallFrame).stopVM, all(CallFrame).sentinel, all(CallFrame).isNative
+
+func (*Thread).restoreLastFrame
+  trusted
+  assigns everything
+
+// resuming copies the saved frame back, slot by slot, INSIDE the value stack; suspending
+// saves exactly the current frame [fp, sp) (minus the yielded value for generators) in a
+// fresh slice of exactly that length
+func (*Thread).callBytecodePromise
+  props C15 C10 C01
+  guard addr < 0 || (sbase(vm) <= addr && addr < sbase(vm) + 24 * len(vm.stack)) || (sliceptr(generator.stack) <= addr && addr < sliceptr(generator.stack) + 24 * len(generator.stack))
+  requires vm != nil && wfStack(vm) && promise != nil && typeis(promise.Body, *Generator) && promise.Body.(*Generator) != nil
+  requires promise.Body.(*Generator).Bytecode != nil && len(promise.Body.(*Generator).stack) >= 1
+  // room for the saved frame (the growth policy of callBytecodeFunction does not cover this path)
+  requires room: soff(vm) + len(promise.Body.(*Generator).stack) <= len(vm.stack) - 1
+  assert before restoreLastFrame#1: len(generator.stack) == soff(vm) - foff(vm) && freshSlice(generator.stack) && generator.ip == vm.ip
+  assert before restoreLastFrame#1: forall k int :: 0 <= k && k < len(generator.stack) ==> elem(generator.stack, k) == slot(vm, foff(vm) + k)
+  loop 1
+    invariant wfStack(vm) && vm.sp == old(vm.sp) && vm.stack == old(vm.stack) && generator == promise.Body.(*Generator) && generator.stack == old(promise.Body.(*Generator).stack)
+    invariant stackLen == len(generator.stack) && baseStack == sliceptr(generator.stack)
+    decreases stackLen - range_idx
 @*/
